@@ -655,56 +655,7 @@ func checkHistory(events []event, kind byte, k int) (problem string, groupOrds [
 }
 
 // leftmost token of a node (first token of the construct).
-func leftmostExpr(e ast.Expression) (token.Token, bool) {
-	for depth := 0; depth < 10000; depth++ {
-		switch x := e.(type) {
-		case *ast.Identifier:
-			return x.Token, true
-		case *ast.IntegerLiteral:
-			return x.Token, true
-		case *ast.FloatLiteral:
-			return x.Token, true
-		case *ast.StringLiteral:
-			return x.Token, true
-		case *ast.MultiStringLiteral:
-			return x.Token, true
-		case *ast.BooleanLiteral:
-			return x.Token, true
-		case *ast.NullLiteral:
-			return x.Token, true
-		case *ast.LetExpression:
-			return x.Token, true
-		case *ast.UnaryExpression:
-			return x.Token, true
-		case *ast.GroupedExpression:
-			return x.Token, true
-		case *ast.FunctionExpression:
-			return x.Token, true
-		case *ast.ArrayLiteral:
-			return x.Token, true
-		case *ast.ObjectLiteral:
-			return x.Token, true
-		case *ast.BinaryExpression:
-			e = x.Left
-		case *ast.PostfixExpression:
-			e = x.Left
-		case *ast.CallExpression:
-			e = x.Function
-		case *ast.MemberExpression:
-			e = x.Object
-		case *ast.AssignmentExpression:
-			e = x.Left
-		case *ast.CompoundAssignmentExpression:
-			e = x.Left
-		default:
-			return token.Token{}, false
-		}
-		if e == nil {
-			return token.Token{}, false
-		}
-	}
-	return token.Token{}, false
-}
+func leftmostExpr(e ast.Expression) (token.Token, bool) { return xutil.LeftmostExprToken(e) }
 
 // exprChildren lists, with their role, the sub-expressions that a parser obtains through an expression
 // parse step of its own (operands, arguments, elements, values, conditions, member properties).
